@@ -24,6 +24,14 @@ impl std::ops::Rem for &Primitive {
             _ => (),
         }
 
+        // `x % -1` is 0 for every integer x. The machine remainder refuses it for the most negative x,
+        // because the division it belongs to overflows -- the remainder itself does not.
+        match (self, rhs) {
+            (Int(_) | Byte(_), Int(-1)) => return Ok(Int(0)),
+            (Int(_) | Byte(_) | BigInt(_), BigInt(-1)) | (BigInt(_), Int(-1)) => return Ok(BigInt(0)),
+            _ => (),
+        }
+
         let (t1, t2) = (&self, &rhs);
 
         let math = apply_math_bin_op_if_applicable!(t1 % t2);
